@@ -52,7 +52,7 @@ def run(ctx):
                 "get_edge pops the head for a new value (count 2, id entered in the table) and answers OutOfMemory exactly at the "
                 "end of the store.")
     ntl = efreelist.check_terminal_links(ctx, F)
-    ctx.floor("E-FREELIST.term.link", "interpreted terminal free-list situations", ntl, 7)
+    ctx.floor("E-FREELIST.term.link", "interpreted terminal free-list situations", ntl, 8)
     ecfg.check_slab_data_type(ctx, F)
     ctx.explain("E-LIN.forget: where the managers dispose of an owned edge by hand (mem::forget + explicit release), every "
                 "path that forgets the edge also releases the reference.")
